@@ -433,13 +433,8 @@ impl<'de> VariantAccess<'de> for VariantRefDeserializer<'de> {
         V: Visitor<'de>,
     {
         match self.value.map(|v| v.as_ref()) {
-            Some(ValueRef::Array(v)) => {
-                if v.is_empty() {
-                    visitor.visit_unit()
-                } else {
-                    visit_array_ref(v, visitor)
-                }
-            }
+            // (an empty array is the payload of a tuple variant without fields: a sequence like any other)
+            Some(ValueRef::Array(v)) => visit_array_ref(v, visitor),
             Some(other) => Err(serde::de::Error::invalid_type(
                 other.unexpected(),
                 &"tuple variant",
